@@ -254,6 +254,9 @@ def run_range(cx, model_first, PRED):
     # ---- end to end: membership at the part edges, derived ⊆ base on the implementation's own verdicts ---------------
     rng.shuffle(accepted)
     reqs, vmeta = [], {}
+    gotparts = {}
+    for ty, fd, chain, got in accepted:
+        gotparts[(ty, fd, tuple(chain))] = got
     for ty, fd, chain, got in accepted[:cx.n(400, 6000)]:
         if any(ch in s for s in chain for ch in b"\"\\\n\r\x0b\x0c") or any(not s for s in chain):
             continue
@@ -281,7 +284,17 @@ def run_range(cx, model_first, PRED):
         byreq[c] = rep
     for c, (ty, fd, chain, vals) in vmeta.items():
         rep = byreq.get(c)
-        if not rep or rep[0] != "ok" or len(chain) < 2:
+        if not rep or rep[0] != "ok":
+            continue
+        # law: validation accepts exactly the members of the parts the implementation itself compiled (when ascending)
+        gp = gotparts.get((ty, fd, tuple(chain)))
+        if gp and all(a <= b for a, b in gp) and all(gp[k][1] < gp[k + 1][0] for k in range(len(gp) - 1)):
+            for k, v in enumerate(vals):
+                if (rep[1][k] == "1") != member(gp, v):
+                    cx.fail("iff", "value validation differs from membership in the compiled parts",
+                            {"type": ty, "fd": fd, "chain_hex": [hexs(x) for x in chain], "value": v, "parts": gp, "accepted": rep[1][k]})
+                    break
+        if len(chain) < 2:
             continue
         pc = "rangeval %s %d %s %s" % (ty, fd, ",".join(str(v) for v in vals), " ".join(hexs(x) for x in chain[:-1]))
         prep = byreq.get(pc)
